@@ -956,6 +956,9 @@ func TestVerifC14bPool(t *testing.T) {
 				gate := &bGate{arrived: make(chan struct{}), release: make(chan struct{})}
 				if ok {
 					h.killGate[uuid] = gate
+					if p := inst.procs[uuid]; p != nil {
+						p.killable = true // this --kill is going to succeed
+					}
 				}
 				h.mu.Unlock()
 				if !ok {
